@@ -221,3 +221,61 @@ Proof.
   apply (finish_plain_spec (eqvb C n A) (Eqv C n A) (eqvb_spec C n A) (Eqv_refl C n A)
            (Eqv_sym C n A) (Eqv_trans C n A) (cand_list n cands) Hnd u HI Hcomp).
 Qed.
+
+(* ---- what classes_spec lists, in words: exactly the classes of the candidates under an
+   equivalence relation that have at least two members; every class ascending and complete; the
+   classes in ascending order of their smallest members (= lexicographic order, as they are
+   disjoint), hence each class once ---- *)
+Section Meaning.
+Variables (r : Z -> Z -> bool) (Rp : Z -> Z -> Prop).
+Hypothesis Hr : forall a b, r a b = true <-> Rp a b.
+Hypothesis R_refl : forall a, Rp a a.
+Hypothesis R_sym : forall a b, Rp a b -> Rp b a.
+Hypothesis R_trans : forall a b c, Rp a b -> Rp b c -> Rp a c.
+Variable cs : list Z.
+Hypothesis cs_nodup : NoDup cs.
+
+Lemma class_at_In (f z : Z) : In z (class_at r cs f) <-> In z cs /\ Rp f z.
+Proof. unfold class_at. now rewrite filter_In, sort_by_In, Hr. Qed.
+
+Theorem classes_spec_meaning :
+  (forall c, In c (classes_spec r cs) ->
+     (2 <= length c)%nat /\ ssorted Z.lt c /\
+     In (hd 0 c) c /\ forall z, In z c <-> In z cs /\ Rp (hd 0 c) z) /\
+  (forall f g, In f cs -> In g cs -> f <> g -> Rp f g ->
+     exists c, In c (classes_spec r cs) /\ In f c /\ In g c) /\
+  ssorted (fun c1 c2 => hd 0 c1 < hd 0 c2) (classes_spec r cs).
+Proof.
+  split; [|split].
+  - intros c Hc. apply (in_spec r cs) in Hc. destruct Hc as [f [Hf [Hmin [-> Hlen]]]].
+    pose proof (hd_class_at r Rp Hr R_refl cs cs_nodup f Hf Hmin) as Hhd.
+    split; [exact Hlen|]. split; [apply (class_at_asc r cs cs_nodup)|]. rewrite Hhd. split.
+    + apply class_at_In. split; [exact Hf|apply R_refl].
+    + intros z. apply class_at_In.
+  - intros f g Hf Hg Hne HR.
+    set (c := class_at r cs f). set (f0 := hd 0 c).
+    assert (Hfc : In f c) by (apply class_at_In; split; [exact Hf|apply R_refl]).
+    assert (Hgc : In g c) by (apply class_at_In; split; [exact Hg|exact HR]).
+    assert (Hasc : ssorted Z.lt c) by apply (class_at_asc r cs cs_nodup).
+    assert (Hf0 : In f0 c) by (apply hd_In; intros E; rewrite E in Hfc; destruct Hfc).
+    apply class_at_In in Hf0 as Hf0'. destruct Hf0' as [Hf0cs Rf0].
+    exists c. split; [|split; [exact Hfc|exact Hgc]].
+    apply (in_spec r cs). exists f0. split; [exact Hf0cs|]. split; [|split].
+    + unfold is_min. apply forallb_forall. intros z Hz. apply sort_by_In in Hz.
+      destruct (r f0 z) eqn:E; [|reflexivity]. cbn [negb orb]. apply Z.leb_le.
+      apply (asc_hd_min c 0 z Hasc). apply class_at_In. split; [exact Hz|].
+      apply (R_trans f f0 z Rf0). now apply Hr.
+    + apply (class_at_ext r Rp Hr R_sym R_trans cs f f0 Rf0).
+    + destruct c as [|x [|y c']]; cbn [length]; [destruct Hfc| |lia].
+      destruct Hfc as [<-|[]]. destruct Hgc as [<-|[]]. congruence.
+  - rewrite (classes_spec_unfold r cs). apply ssorted_filter.
+    apply (proj1 (ssorted_map (fun c1 c2 : list Z => hd 0 c1 < hd 0 c2) (class_at r cs) (filter (is_min r cs) (sortZ cs)))).
+    apply (ssorted_impl_nodup Z.lt).
+    + apply NoDup_filter. apply (ssorted_NoDup Z.lt); [intros x; lia|now apply sortZ_lt].
+    + intros a b Ha Hb _ Hlt. apply filter_In in Ha, Hb. destruct Ha as [Ha Hma]. destruct Hb as [Hb Hmb].
+      apply sort_by_In in Ha, Hb.
+      rewrite (hd_class_at r Rp Hr R_refl cs cs_nodup a Ha Hma), (hd_class_at r Rp Hr R_refl cs cs_nodup b Hb Hmb).
+      exact Hlt.
+    + apply ssorted_filter. now apply sortZ_lt.
+Qed.
+End Meaning.
